@@ -55,6 +55,9 @@ func (e *testEnv) sessionFor(u idpUser, age time.Duration) *sessionsapi.SessionS
 		}
 	}
 	nonce := []byte("0123456789abcdef0123456789abcdef")
+	e.idp.mu.Lock()
+	e.idp.refreshNonce = encryption.HashNonce(nonce)
+	e.idp.mu.Unlock()
 	idt := e.idp.idToken(u, encryption.HashNonce(nonce))
 	return &sessionsapi.SessionState{CreatedAt: &created, ExpiresOn: &exp, Email: u.Email, User: u.Sub, Groups: groups,
 		PreferredUsername: u.PreferredUser, AccessToken: "at-issued", IDToken: idt, RefreshToken: "rt-issued", Nonce: nonce}
